@@ -15,10 +15,19 @@ open VelaVerif.Box VelaVerif.Stripes
 /-- `numeric_util.round_up(a, b)`; `b = 0` is a ZeroDivisionError (guarded by the callers below) -/
 def roundUp (a b : Nat) : Nat := ((a + b - 1) / b) * b
 
-/-- `rolling_buffer_shape(producer_stripe, consumer_stripe_input)` → (height, width, depth) -/
-def rollingBufferShape (pH pW pD cH cW : Nat) : Except Err (Nat × Nat × Nat) :=
+/-- `ifm_box_overread(consumer)`: rows by which the IFM box of a stripe (`end*stride + skirt_bottom`) extends beyond
+    the last row the stripe reads (`(end-1)*stride - skirt_top + k_dil`); 0 for an operator without skirt -/
+def ifmBoxOverread (skirt : Option (Int × Int)) (stride kdil : Int) : Nat :=
+  match skirt with
+  | none => 0
+  | some (skT, skB) => (max (stride + skT + skB - kdil) 0).toNat
+
+/-- `rolling_buffer_shape(producer_stripe, consumer_stripe_input, consumer_overread)` → (height, width, depth):
+    the producer runs until the whole IFM box of the consumer stripe is present; one row of over-read is covered by
+    producer + consumer stripe, the rest is added before rounding up -/
+def rollingBufferShape (pH pW pD cH cW : Nat) (over : Nat := 0) : Except Err (Nat × Nat × Nat) :=
   if cH = 0 then .error .value else
-  .ok (roundUp (pH + cH) cH, max pW cW, roundUp pD 16)
+  .ok (roundUp (pH + cH + (over - 1)) cH, max pW cW, roundUp pD 16)
 
 structure Tiles where
   height0 : Nat
